@@ -615,9 +615,9 @@ def run(ctx):
         for k, toks in enumerate(enum_atomic(2, 3, ops=("c", "p", "f", "l"))):
             plans.append((f"l3-{k}", 2, toks, True, "atomic-pull"))
         rr = r.fork("quick-random")
-        for k, toks in enumerate(rr.shuffle(enum_atomic(2, 5))[:160]):
+        for k, toks in enumerate(rr.shuffle(enum_atomic(2, 5))[:100]):
             plans.append((f"a5-{k}", 2, toks, True, "atomic-len5-sample"))
-        for k, toks in enumerate(rr.shuffle(enum_atomic(3, 4))[:60]):
+        for k, toks in enumerate(rr.shuffle(enum_atomic(3, 4))[:40]):
             plans.append((f"b4-{k}", 3, toks, True, "atomic-3clones-len4-sample"))
         for k in range(50):
             plans.append((f"q{k}", 3, gen_random(rr, 3, rr.range(5, 9)), True, "random3"))
